@@ -475,3 +475,337 @@ Proof.
   destruct (search1 t st bs) as [t1 o rest| |]; try reflexivity.
   cbn [sres_inside] in Hs. destruct Hs as (_ & Hl & _). apply IH. unfold zlen in Hl. lia.
 Qed.
+
+(* ====================================================================================================== *)
+(* (2) T2JBytes: the Thrift -> JSON byte walk                                                               *)
+(* ====================================================================================================== *)
+From DG Require Import Json Num Base64 T2J T2JBytes.
+
+Lemma rd_int_len n bs z r : rd_int n bs = Some (z, r) -> (length bs = n + length r)%nat.
+Proof.
+  unfold rd_int. destruct (take n bs) as [[x r1]|] eqn:E; [|discriminate]. intros H; inversion H; subst.
+  apply take_len in E. lia.
+Qed.
+
+Lemma rd_uint_len n bs z r : rd_uint n bs = Some (z, r) -> (length bs = n + length r)%nat.
+Proof.
+  unfold rd_uint. destruct (take n bs) as [[x r1]|] eqn:E; [|discriminate]. intros H; inversion H; subst.
+  apply take_len in E. lia.
+Qed.
+
+Lemma rd_bytes_len bs s r : rd_bytes bs = Some (s, r) -> (4 + length r <= length bs)%nat.
+Proof.
+  unfold rd_bytes. destruct (rd_int 4 bs) as [[n r1]|] eqn:E; [|discriminate]. apply rd_int_len in E.
+  destruct ((n <? 0) || (n >? zlen r1)); [discriminate|]. intros H; inversion H; subst.
+  rewrite skipn_length. lia.
+Qed.
+
+Lemma find_field_in fs : forall id fl, T2J.find_field fs id = Some fl -> In fl fs.
+Proof.
+  induction fs as [|f fs IH]; intros id fl; cbn [T2J.find_field]; [discriminate|].
+  destruct (f_id (fst f) =? id).
+  - intros H; inversion H; subst. left; reflexivity.
+  - intros H. right. eapply IH; eassumption.
+Qed.
+
+Section T2JWalkTotal.
+  Variable fd : Z -> list Z.
+  Variable o : Z.
+
+  (* scalars take >= 1 byte, strings >= 4, map keys >= 1 *)
+  Lemma walk_scalar_shrinks t bs txt r : walk_scalar fd o t bs = Some (txt, r) -> (length r < length bs)%nat.
+  Proof.
+    unfold walk_scalar.
+    destruct (t =? T_BOOL). { destruct bs; [discriminate|]. intros H; inversion H; subst. cbn [length]. lia. }
+    destruct (t =? T_BYTE). { destruct (rd_int 1 bs) as [[z r1]|] eqn:E; [|discriminate]. intros H; inversion H; subst. apply rd_int_len in E. lia. }
+    destruct (t =? T_I16). { destruct (rd_int 2 bs) as [[z r1]|] eqn:E; [|discriminate]. intros H; inversion H; subst. apply rd_int_len in E. lia. }
+    destruct (t =? T_I32). { destruct (rd_int 4 bs) as [[z r1]|] eqn:E; [|discriminate]. intros H; inversion H; subst. apply rd_int_len in E. lia. }
+    destruct (t =? T_I64). { destruct (rd_int 8 bs) as [[z r1]|] eqn:E; [|discriminate]. intros H; inversion H; subst. apply rd_int_len in E. lia. }
+    destruct (t =? T_DOUBLE); [|discriminate].
+    destruct (rd_uint 8 bs) as [[z r1]|] eqn:E; [|discriminate]. destruct (f64_is_finite z); [|discriminate].
+    intros H; inversion H; subst. apply rd_uint_len in E. lia.
+  Qed.
+
+  Lemma walk_string_shrinks b bs txt r : walk_string o b bs = Some (txt, r) -> (4 + length r <= length bs)%nat.
+  Proof.
+    unfold walk_string. destruct (rd_bytes bs) as [[s r1]|] eqn:E; [|discriminate]. intros H; inversion H; subst.
+    apply rd_bytes_len in E. assumption.
+  Qed.
+
+  Lemma walk_key_shrinks dk bs txt r : walk_key o dk bs = Some (txt, r) -> (length r < length bs)%nat.
+  Proof.
+    unfold walk_key, walk_key_t. generalize (desc_type dk). intros t.
+    destruct (t =? T_BYTE). { destruct (rd_int 1 bs) as [[z r1]|] eqn:E; [|discriminate]. intros H; inversion H; subst. apply rd_int_len in E. lia. }
+    destruct (t =? T_I16). { destruct (rd_int 2 bs) as [[z r1]|] eqn:E; [|discriminate]. intros H; inversion H; subst. apply rd_int_len in E. lia. }
+    destruct (t =? T_I32). { destruct (rd_int 4 bs) as [[z r1]|] eqn:E; [|discriminate]. intros H; inversion H; subst. apply rd_int_len in E. lia. }
+    destruct (t =? T_I64). { destruct (rd_int 8 bs) as [[z r1]|] eqn:E; [|discriminate]. intros H; inversion H; subst. apply rd_int_len in E. lia. }
+    destruct (t =? T_STRING); [|discriminate].
+    destruct (rd_bytes bs) as [[s r1]|] eqn:E; [|discriminate]. intros H; inversion H; subst. apply rd_bytes_len in E. lia.
+  Qed.
+
+  (* ---- the loops, for any one-level-down walker whose remainders are no longer than its inputs ---- *)
+  Section LoopsShrink.
+    Variable rec : tdesc -> list Z -> option (list Z * list Z).
+    Hypothesis rec_le : forall d b t r, rec d b = Some (t, r) -> (length r <= length b)%nat.
+
+    Lemma walk_fields_shrinks : forall f fs c bm bs txt r,
+      walk_fields o rec f fs c bm bs = Some (txt, r) -> (length r < length bs)%nat.
+    Proof.
+      induction f as [|f IH]; intros fs c bm bs txt r; cbn [walk_fields]; [discriminate|].
+      destruct bs as [|t r0]; [discriminate|].
+      destruct (negb (valid_ttype t)); [discriminate|].
+      destruct (t =? 0). { destruct (bm_missing fs bm); [discriminate|]. intros H; inversion H; subst. cbn [length]. lia. }
+      destruct (rd_int 2 r0) as [[id r2]|] eqn:E2; [|discriminate]. apply rd_int_len in E2. cbn [length].
+      destruct (T2J.find_field fs id) as [fl|].
+      - destruct (rec (snd fl) r2) as [[t1 r3]|] eqn:E3; [|discriminate]. apply rec_le in E3.
+        destruct (walk_fields o rec f fs true (bm_clear id bm) r3) as [[tl r4]|] eqn:E4; [|discriminate].
+        apply IH in E4. intros H; inversion H; subst. lia.
+      - destruct (o_disallow_unknown o); [discriminate|].
+        destruct (skip_go t r2) as [r3|] eqn:E3; [|discriminate]. apply skip_go_shrinks in E3.
+        intros H. apply IH in H. lia.
+    Qed.
+
+    Lemma walk_elems_le : forall n de c bs txt r, walk_elems rec n de c bs = Some (txt, r) -> (length r <= length bs)%nat.
+    Proof.
+      induction n as [|n IH]; intros de c bs txt r; cbn [walk_elems].
+      - intros H; inversion H; subst. lia.
+      - destruct (rec de bs) as [[t1 r1]|] eqn:E1; [|discriminate]. apply rec_le in E1.
+        destruct (walk_elems rec n de true r1) as [[tl r2]|] eqn:E2; [|discriminate]. apply IH in E2.
+        intros H; inversion H; subst. lia.
+    Qed.
+
+    Lemma walk_pairs_le : forall n dk dv c bs txt r, walk_pairs o rec n dk dv c bs = Some (txt, r) -> (length r <= length bs)%nat.
+    Proof.
+      induction n as [|n IH]; intros dk dv c bs txt r; cbn [walk_pairs].
+      - intros H; inversion H; subst. lia.
+      - destruct (walk_key o dk bs) as [[kt r0]|] eqn:E0; [|discriminate]. apply walk_key_shrinks in E0.
+        destruct (rec dv r0) as [[t1 r1]|] eqn:E1; [|discriminate]. apply rec_le in E1.
+        destruct (walk_pairs o rec n dk dv true r1) as [[tl r2]|] eqn:E2; [|discriminate]. apply IH in E2.
+        intros H; inversion H; subst. lia.
+    Qed.
+  End LoopsShrink.
+
+  (* ---- a: every value the walk reads takes at least one byte, at every nesting budget, on arbitrary bytes ---- *)
+  Theorem t2j_walk_shrinks : forall n d bs txt r, t2j_walk_gen fd o n d bs = Some (txt, r) -> (length r < length bs)%nat.
+  Proof.
+    induction n as [|n IH]; intros d bs txt r; destruct d as [t|b|fs|dk dv|s de]; cbn [t2j_walk_gen];
+      try discriminate; try apply walk_scalar_shrinks;
+      try (intros H; apply walk_string_shrinks in H; lia).
+    - destruct (walk_fields o (t2j_walk_gen fd o n) (S (length bs)) fs false (bm_init fs) bs) as [[t r1]|] eqn:E; [|discriminate].
+      apply walk_fields_shrinks in E.
+      + intros H; inversion H; subst. assumption.
+      + intros d0 b0 t0 r0 H0. apply IH in H0. lia.
+    - destruct bs as [|kt [|vt r0]]; try discriminate.
+      destruct (negb (valid_ttype kt && valid_ttype vt)); [discriminate|].
+      destruct (skip_count r0) as [[sz r2]|] eqn:Ec; [|discriminate]. apply skip_count_len in Ec.
+      destruct (negb ((kt =? desc_type dk) && (vt =? desc_type dv))); [discriminate|].
+      destruct (sz >? zlen r2); [discriminate|].
+      destruct (walk_pairs o (t2j_walk_gen fd o n) (Z.to_nat sz) dk dv false r2) as [[t r3]|] eqn:E; [|discriminate].
+      apply walk_pairs_le in E.
+      + intros H; inversion H; subst. cbn [length]. lia.
+      + intros d0 b0 t0 r1 H0. apply IH in H0. lia.
+    - destruct bs as [|et r0]; try discriminate.
+      destruct (negb (valid_ttype et)); [discriminate|].
+      destruct (skip_count r0) as [[sz r2]|] eqn:Ec; [|discriminate]. apply skip_count_len in Ec.
+      destruct (negb (et =? desc_type de)); [discriminate|].
+      destruct (sz >? zlen r2); [discriminate|].
+      destruct (walk_elems (t2j_walk_gen fd o n) (Z.to_nat sz) de false r2) as [[t r3]|] eqn:E; [|discriminate].
+      apply walk_elems_le in E.
+      + intros H; inversion H; subst. cbn [length]. lia.
+      + intros d0 b0 t0 r1 H0. apply IH in H0. lia.
+  Qed.
+
+  Lemma t2j_walk_le n d bs txt r : t2j_walk_gen fd o n d bs = Some (txt, r) -> (length r <= length bs)%nat.
+  Proof. intros H. apply t2j_walk_shrinks in H. lia. Qed.
+
+  (* ---- b: the loops do not depend on the fuel, nor on the one-level-down walker outside the buffers it can be
+     handed (suffixes of the current buffer) ---- *)
+  Section LoopsExt.
+    Variables rec rec' : tdesc -> list Z -> option (list Z * list Z).
+    Hypothesis rec'_le : forall d b t r, rec' d b = Some (t, r) -> (length r <= length b)%nat.
+
+    Lemma walk_fields_ext_fuel : forall f f' fs c bm bs, (length bs < f)%nat -> (length bs < f')%nat ->
+      (forall fl b, In fl fs -> (length b <= length bs)%nat -> rec (snd fl) b = rec' (snd fl) b) ->
+      walk_fields o rec f fs c bm bs = walk_fields o rec' f' fs c bm bs.
+    Proof.
+      induction f as [|f IH]; intros f' fs c bm bs Hf Hf' Hext; [lia|]. destruct f' as [|f']; [lia|]. cbn [walk_fields].
+      destruct bs as [|t r0]; [reflexivity|].
+      destruct (negb (valid_ttype t)); [reflexivity|].
+      destruct (t =? 0); [reflexivity|].
+      destruct (rd_int 2 r0) as [[id r2]|] eqn:E2; [|reflexivity]. apply rd_int_len in E2. cbn [length] in *.
+      destruct (T2J.find_field fs id) as [fl|] eqn:Ef.
+      - apply find_field_in in Ef. rewrite (Hext fl r2 Ef) by lia.
+        destruct (rec' (snd fl) r2) as [[t1 r3]|] eqn:E3; [|reflexivity]. apply rec'_le in E3.
+        rewrite (IH f' fs true (bm_clear id bm) r3); [reflexivity|lia|lia|].
+        intros fl0 b Hin Hb. apply Hext; [assumption|lia].
+      - destruct (o_disallow_unknown o); [reflexivity|].
+        destruct (skip_go t r2) as [r3|] eqn:E3; [|reflexivity]. apply skip_go_shrinks in E3.
+        apply IH; [lia|lia|]. intros fl0 b Hin Hb. apply Hext; [assumption|lia].
+    Qed.
+
+    Lemma walk_elems_ext : forall n de c bs,
+      (forall b, (length b <= length bs)%nat -> rec de b = rec' de b) ->
+      walk_elems rec n de c bs = walk_elems rec' n de c bs.
+    Proof.
+      induction n as [|n IH]; intros de c bs Hext; cbn [walk_elems]; [reflexivity|].
+      rewrite Hext by lia.
+      destruct (rec' de bs) as [[t1 r1]|] eqn:E1; [|reflexivity]. apply rec'_le in E1.
+      rewrite (IH de true r1); [reflexivity|]. intros b Hb. apply Hext. lia.
+    Qed.
+
+    Lemma walk_pairs_ext : forall n dk dv c bs,
+      (forall b, (length b <= length bs)%nat -> rec dv b = rec' dv b) ->
+      walk_pairs o rec n dk dv c bs = walk_pairs o rec' n dk dv c bs.
+    Proof.
+      induction n as [|n IH]; intros dk dv c bs Hext; cbn [walk_pairs]; [reflexivity|].
+      destruct (walk_key o dk bs) as [[kt r0]|] eqn:E0; [|reflexivity]. apply walk_key_shrinks in E0.
+      rewrite Hext by lia.
+      destruct (rec' dv r0) as [[t1 r1]|] eqn:E1; [|reflexivity]. apply rec'_le in E1.
+      rewrite (IH dk dv true r1); [reflexivity|]. intros b Hb. apply Hext. lia.
+    Qed.
+  End LoopsExt.
+
+  Theorem walk_fields_fuel_stable rec :
+    (forall d b t r, rec d b = Some (t, r) -> (length r <= length b)%nat) ->
+    forall f f' fs c bm bs, (length bs < f)%nat -> (length bs < f')%nat ->
+    walk_fields o rec f fs c bm bs = walk_fields o rec f' fs c bm bs.
+  Proof. intros Hle f f' fs c bm bs Hf Hf'. apply walk_fields_ext_fuel; auto. Qed.
+
+  (* ---- c: the nesting budget: the walk descends only along the descriptor, which is a finite tree ---- *)
+  Fixpoint desc_height (d : tdesc) : nat :=
+    match d with
+    | DScalar _ | DString _ => O
+    | DStruct fs => S (fold_right (fun f m => Nat.max (desc_height (snd f)) m) O fs)
+    | DMap dk dv => S (Nat.max (desc_height dk) (desc_height dv))
+    | DList _ de => S (desc_height de)
+    end.
+
+  Lemma desc_height_field (fs : list (fmeta * tdesc)) fl n :
+    (fold_right (fun f m => Nat.max (desc_height (snd f)) m) O fs <= n)%nat -> In fl fs -> (desc_height (snd fl) <= n)%nat.
+  Proof.
+    intros H Hin. apply (fold_max_le (fun f => desc_height (snd f))) in H.
+    rewrite Forall_forall in H. apply H. assumption.
+  Qed.
+
+  Theorem t2j_walk_depth_stable : forall n n' d bs, (desc_height d <= n)%nat -> (desc_height d <= n')%nat ->
+    t2j_walk_gen fd o n d bs = t2j_walk_gen fd o n' d bs.
+  Proof.
+    induction n as [|n IH]; intros n' d bs Hn Hn'; destruct d as [t|b|fs|dk dv|s de]; cbn [desc_height] in Hn, Hn';
+      try lia; destruct n' as [|n']; try lia; cbn [t2j_walk_gen]; try reflexivity.
+    - rewrite (walk_fields_ext_fuel (t2j_walk_gen fd o n) (t2j_walk_gen fd o n') (t2j_walk_le n')
+                 (S (length bs)) (S (length bs)) fs false (bm_init fs) bs); [reflexivity|lia|lia|].
+      intros fl b Hin _. apply IH; eapply desc_height_field; try eassumption; lia.
+    - destruct bs as [|kt [|vt r0]]; try reflexivity.
+      destruct (negb (valid_ttype kt && valid_ttype vt)); [reflexivity|].
+      destruct (skip_count r0) as [[sz r2]|]; [|reflexivity].
+      destruct (negb ((kt =? desc_type dk) && (vt =? desc_type dv))); [reflexivity|].
+      destruct (sz >? zlen r2); [reflexivity|].
+      rewrite (walk_pairs_ext (t2j_walk_gen fd o n) (t2j_walk_gen fd o n') (t2j_walk_le n')); [reflexivity|].
+      intros b _. apply IH; lia.
+    - destruct bs as [|et r0]; try reflexivity.
+      destruct (negb (valid_ttype et)); [reflexivity|].
+      destruct (skip_count r0) as [[sz r2]|]; [|reflexivity].
+      destruct (negb (et =? desc_type de)); [reflexivity|].
+      destruct (sz >? zlen r2); [reflexivity|].
+      rewrite (walk_elems_ext (t2j_walk_gen fd o n) (t2j_walk_gen fd o n') (t2j_walk_le n')); [reflexivity|].
+      intros b _. apply IH; lia.
+  Qed.
+
+  (* ---- d: fuel-explicit copy: ONE field-loop fuel lf, used at every struct of the walk ---- *)
+  Fixpoint t2j_walk_f (lf : nat) (n : nat) (d : tdesc) (bs : list Z) {struct n} : option (list Z * list Z) :=
+    match d with
+    | DScalar t => walk_scalar fd o t bs
+    | DString b => walk_string o b bs
+    | DStruct fs =>
+      match n with
+      | O => None
+      | S n' =>
+        match walk_fields o (t2j_walk_f lf n') lf fs false (bm_init fs) bs with
+        | Some (t, r) => Some (123 :: t, r)
+        | None => None
+        end
+      end
+    | DMap dk dv =>
+      match n with
+      | O => None
+      | S n' =>
+        match bs with
+        | kt :: vt :: r =>
+          if negb (valid_ttype kt && valid_ttype vt) then None else
+          match skip_count r with
+          | None => None
+          | Some (sz, r2) =>
+            if negb ((kt =? desc_type dk) && (vt =? desc_type dv)) then None
+            else if sz >? zlen r2 then None
+            else match walk_pairs o (t2j_walk_f lf n') (Z.to_nat sz) dk dv false r2 with
+                 | Some (t, r3) => Some (123 :: t, r3)
+                 | None => None
+                 end
+          end
+        | _ => None
+        end
+      end
+    | DList _ de =>
+      match n with
+      | O => None
+      | S n' =>
+        match bs with
+        | et :: r =>
+          if negb (valid_ttype et) then None else
+          match skip_count r with
+          | None => None
+          | Some (sz, r2) =>
+            if negb (et =? desc_type de) then None
+            else if sz >? zlen r2 then None
+            else match walk_elems (t2j_walk_f lf n') (Z.to_nat sz) de false r2 with
+                 | Some (t, r3) => Some (91 :: t, r3)
+                 | None => None
+                 end
+          end
+        | _ => None
+        end
+      end
+    end.
+
+  (* same nesting budget, any field-loop fuel above the length of the buffer: the model's answer *)
+  Lemma t2j_walk_f_eq : forall n lf d bs, (length bs < lf)%nat -> t2j_walk_f lf n d bs = t2j_walk_gen fd o n d bs.
+  Proof.
+    induction n as [|n IH]; intros lf d bs Hlf; destruct d as [t|b|fs|dk dv|s de]; cbn [t2j_walk_f t2j_walk_gen]; try reflexivity.
+    - rewrite (walk_fields_ext_fuel (t2j_walk_f lf n) (t2j_walk_gen fd o n) (t2j_walk_le n)
+                 lf (S (length bs)) fs false (bm_init fs) bs); [reflexivity|lia|lia|].
+      intros fl b _ Hb. apply IH. lia.
+    - destruct bs as [|kt [|vt r0]]; try reflexivity.
+      destruct (negb (valid_ttype kt && valid_ttype vt)); [reflexivity|].
+      destruct (skip_count r0) as [[sz r2]|] eqn:Ec; [|reflexivity]. apply skip_count_len in Ec.
+      destruct (negb ((kt =? desc_type dk) && (vt =? desc_type dv))); [reflexivity|].
+      destruct (sz >? zlen r2); [reflexivity|].
+      rewrite (walk_pairs_ext (t2j_walk_f lf n) (t2j_walk_gen fd o n) (t2j_walk_le n)); [reflexivity|].
+      intros b Hb. apply IH. cbn [length] in Hlf. lia.
+    - destruct bs as [|et r0]; try reflexivity.
+      destruct (negb (valid_ttype et)); [reflexivity|].
+      destruct (skip_count r0) as [[sz r2]|] eqn:Ec; [|reflexivity]. apply skip_count_len in Ec.
+      destruct (negb (et =? desc_type de)); [reflexivity|].
+      destruct (sz >? zlen r2); [reflexivity|].
+      rewrite (walk_elems_ext (t2j_walk_f lf n) (t2j_walk_gen fd o n) (t2j_walk_le n)); [reflexivity|].
+      intros b Hb. apply IH. cbn [length] in Hlf. lia.
+  Qed.
+
+  (* field fuel > |root buffer| and nesting budget >= height of the descriptor: the answer, whatever the two fuels.
+     So  |bs| + 1  and  desc_height d  suffice, and more never changes the answer: a None of the walk is never
+     "out of fuel" *)
+  Theorem t2j_walk_total : forall lf lf' n n' d bs,
+    (length bs < lf)%nat -> (length bs < lf')%nat -> (desc_height d <= n)%nat -> (desc_height d <= n')%nat ->
+    t2j_walk_f lf n d bs = t2j_walk_f lf' n' d bs /\ t2j_walk_f lf n d bs = t2j_walk_gen fd o n' d bs.
+  Proof.
+    intros lf lf' n n' d bs Hlf Hlf' Hn Hn'.
+    rewrite !t2j_walk_f_eq by assumption. split; apply t2j_walk_depth_stable; assumption.
+  Qed.
+End T2JWalkTotal.
+
+(* the instance the checks run: t2j_walk = t2j_walk_gen f64_exact_lexeme *)
+Corollary t2j_walk_budget_stable n n' o d bs : (desc_height d <= n)%nat -> (desc_height d <= n')%nat ->
+  t2j_walk n o d bs = t2j_walk n' o d bs.
+Proof. apply t2j_walk_depth_stable. Qed.
+
+Corollary t2j_walk_progress n o d bs txt r : t2j_walk n o d bs = Some (txt, r) -> (length r < length bs)%nat.
+Proof. apply t2j_walk_shrinks. Qed.
